@@ -19,10 +19,16 @@ def run(project, rep):
     rep.run(T.t_r2, project, rep)
     rep.run(T.t_r3, project, rep)
     rep.run(T.t_r4, project, rep)
+    rep.run(T.t_r4b_guards_constant, project, rep)
     rep.run(T.t_r5, project, rep)
     rep.run(T.t_r6, project, rep)
     rep.run(T.t_r6b_no_context_arithmetic, project, rep)
     rep.run(T.t_r7, project, rep)
+    rep.run(T.t_r10_supplied_text_kept, project, rep)
+    from ..schema import Schema
+    from .. import rules_values as V
+    # the two decode tables of the readers: exactly Y/N by strict lookup (V-R5), single-pass six-entity decoder (V-R6)
+    rep.run_only(("V-R5", "V-R6"), V.v_rules, Schema(project), rep)
     from .. import rules_dates as Z
     from .. import rules_wire as L
     rep.run(Z.z_r2_naive, project, rep)
